@@ -41,7 +41,7 @@ add("F28","C18","fixed","sign-fails","a PGP pair generated with an empty passwor
     cfg_=PLAIN, params={"pw":0,"d0":0,"d1":1,"len":100}, sparams={"kind":"sig:pgp"}, commit="PGP keys generated with an empty password")
 addfile("KF6","C11","open","hang",
     "a handle that has been read only partially keeps the drive and the read-side operation lock (its restore goroutine is parked in the pipe) until it is closed: any writing call of another caller then blocks while holding the filesystem lock, and the reader's own Close blocks on that lock - the whole instance deadlocks",
-    relax="nopartialreads")
+    relax="nopartialreads", also=["C01","C02","C05","C12","C13","C14","C15","C16"])
 addfile("F29","C11","fixed","not-linearizable",
     "a Chmod by another caller between Create and Close of a written handle was undone by the Close (the handle archived its cached attributes)",
     commit="closing a written file archives it under its current state")
